@@ -2,6 +2,7 @@
 from .inv_base import InvProp
 from ..prng import Rng
 from .. import geninv as GI
+from .. import geninv2 as GI2
 from .. import core
 from .c01 import inv, cls
 
@@ -68,6 +69,18 @@ class C13(InvProp):
             yield GI.gen_inventory(r, n_classes=r.range(1, 6), shape=r.choice(["tree", "dag"]), n_nodes=r.range(0, 8),
                                    fail_nodes=r.choice([0, 0, 0, 1, 2]), missing=r.choice([0, 0, 1]), node_dirs=r.chance(1, 3),
                                    compose=r.chance(1, 2))
+            if i % 5 == 2:
+                # includes that resolve (through a reference) to a relative name, from classes in several directories,
+                # with enough nodes that one worker renders several of them
+                c = GI.gen_inventory(r, n_classes=r.range(1, 4), shape="tree", n_nodes=r.range(0, 3), compose=r.chance(1, 2))
+                GI2.relref_groups(r, c, n_nodes=(6, 30))
+                c["fam"] = "relref_groups"
+                yield c
+            if i % 10 == 7:
+                c = GI.gen_inventory(r, n_classes=r.range(2, 5), shape=r.choice(["tree", "dag"]), nested=True, relative=70, n_nodes=r.range(2, 6))
+                if GI2.add_aliases(r, c):
+                    c["fam"] = "aliases"
+                    yield c
 
     def judge(self, req, impl, reply):
         j = super().judge(req, impl, reply)
@@ -78,6 +91,10 @@ class C13(InvProp):
             j["impl_oracle"] = False
             j["concrete"] = True
             j["why"] = (j["why"] + "; " if j["why"] else "") + "; ".join(why[:3])
+        if (impl.get("inventory") or {}).get("ok", {}).get("entries_equal_single") is False:
+            j["impl_oracle"] = False
+            j["concrete"] = True
+            j["why"] += "; an inventory entry differs from rendering that node alone"
         # fails iff some node fails
         anyfail = any("ok" not in r for r in impl.get("nodes", {}).values())
         invok = "ok" in (impl.get("inventory") or {})
